@@ -395,12 +395,12 @@ static std::vector<Op> alphabet_small(const St& s)
    for(auto& o : full)
    {
       // keep the first variant of every function, plus the argument-shape variants that matter for array bounds
-      bool shape = (o.fn == ADD_COL_REAL || o.fn == ADD_ROW_REAL) && (o.v == 3 || o.v == 5);
-      shape = shape || ((o.fn == ADD_COL_RAT || o.fn == ADD_ROW_RAT) && (o.v == 3 || o.v == 4));
+      bool shape = (o.fn == ADD_COL_REAL || o.fn == ADD_ROW_REAL) && o.v == 3;
+      shape = shape || ((o.fn == ADD_COL_RAT || o.fn == ADD_ROW_RAT) && o.v == 3);
       shape = shape || ((o.fn == GET_LOWER_REAL || o.fn == GET_UPPER_REAL || o.fn == GET_OBJ_REAL || o.fn == GET_PRIMAL_REAL || o.fn == GET_DUAL_REAL
                          || o.fn == GET_REDCOST_REAL) && o.v == 1);
-      shape = shape || (o.fn == SET_INT && (o.v == 2 || o.v == 4));
-      // the file read of the deepest level is the MPS one: an LP-format read leaks about 1 MB per call inside SoPlex (see run_seq_iso) and has to
+      shape = shape || (o.fn == SET_INT && o.v == 2);
+      // the file read of the deepest level is the MPS one: if the tree leaks in LP-format reads (see run_seq_iso) such a sequence has to
       // be executed in a forked child, which is affordable on levels 1 and 2 (one fork per subtree) but not once per leaf
       if(o.fn == READ_INSTANCE) { if(o.v == 1) a.push_back(o); last = o.fn; continue; }
       if(o.fn != last || shape) a.push_back(o);
@@ -1234,13 +1234,24 @@ static SeqResult run_seq(const Seq& q, Ctx& c, uint64_t beforeHash = 0)
    return res;
 }
 
-// SPxLPBase::readLPF releases its private NameSets without running their destructors (about 1 MB per read on the handle + mirror, also
-// for well-formed input), so a worker that executed every sequence containing an LP-format read itself would grow without bound.  Those
-// sequences are executed in a forked child of the worker; violations and counters reach the worker's result file through the shared sink.
+// Before commit 86a38ae SPxLPBase::readLPF released its private NameSets without running their destructors (about 1 MB per read on the
+// handle + mirror, also for well-formed input); a worker that executed every sequence containing an LP-format read itself then grew until
+// the machine ran out of memory.  main() measures whether an LP read retains memory; only if it does, those sequences are executed in a
+// forked child of the worker (violations and counters reach the worker's result file through the shared sink).
+static bool g_isolate_lp = false;
+static bool lp_read_leaks()
+{
+   SoPlex s;
+   silence(&s);
+   s.readFile(g_files[0].c_str());
+   size_t h0 = heap_bytes();
+   for(int k = 0; k < 3; ++k) s.readFile(g_files[0].c_str());
+   return heap_bytes() > h0 + 300000;
+}
 static SeqResult run_seq_iso(const Seq& q, Ctx& c, uint64_t beforeHash = 0)
 {
    bool lp = false;
-   for(auto& o : q.ops) if(o.fn == READ_INSTANCE && o.v == 0) lp = true;
+   if(g_isolate_lp) for(auto& o : q.ops) if(o.fn == READ_INSTANCE && o.v == 0) lp = true;
    if(!lp || !c.sink) return run_seq(q, c, beforeHash);
    int fd[2];
    if(pipe(fd) != 0) return run_seq(q, c, beforeHash);
@@ -1275,6 +1286,7 @@ static SeqResult run_seq_iso(const Seq& q, Ctx& c, uint64_t beforeHash = 0)
 
 static bool has_lp_read(const Seq& q)
 {
+   if(!g_isolate_lp) return false;
    for(auto& o : q.ops) if(o.fn == READ_INSTANCE && o.v == 0) return true;
    return false;
 }
@@ -1335,6 +1347,8 @@ int main(int argc, char** argv)
    bool small3 = args.get("l3", "small") == "small";
    g_allow_scaled_grow = args.get("allow-scaled-grow", "0") == "1";
    Report rep(args, "model_checking", thorough ? 3300 : 420);
+   g_isolate_lp = lp_read_leaks();
+   rep.extra["lp_format_read_retains_memory(sequences_with_it_run_in_a_forked_child)"] = g_isolate_lp ? "true" : "false";
 
    struct First { int init; Op op; };
    std::vector<First> firsts;
@@ -1448,7 +1462,7 @@ int main(int argc, char** argv)
                       "arrays whose length is not advertised (SoPlex_getRowVector*) get exactly as many entries as the row has nonzeros; every other array has exactly the advertised length; returned strings are checked for a NUL inside their allocation",
                       "SoPlex_getSolvingTime: the accumulated ticks of the stopped solving-time timer are set to 125 on both objects before the call",
                       "a sequence whose last call violated the property is not extended (its subtree is pruned)",
-                      "sequences containing an LP-format SoPlex_readInstanceFile run in a forked child of the worker (SPxLPBase::readLPF leaks its NameSets); on level 3 the file read is the MPS one"
+                      "if (and only if) an LP-format read is measured to retain memory (SPxLPBase::readLPF before 86a38ae), sequences containing an LP-format SoPlex_readInstanceFile run in a forked child of the worker; on level 3 the file read is the MPS one"
                      };
    rep.extra["depth"] = std::to_string(depth);
    rep.extra["initial_states"] = std::to_string(NINIT);
